@@ -586,6 +586,27 @@ func c16Case(c *core.Case) {
 		gohcl.EncodeIntoBody(orig.Interface(), f.Body())
 		src = f.Bytes()
 	}
+	if gen.Chance(r, 0.5) {
+		// another value is encoded and rendered before this one is decoded: the
+		// source already obtained belongs to the caller
+		keep := string(src)
+		other := reflect.New(ty)
+		c16Fill(c, other.Elem(), 2)
+		of := hclwrite.NewEmptyFile()
+		if hasLabels {
+			of.Body().AppendBlock(gohcl.EncodeAsBlock(other.Interface(), "root"))
+		} else {
+			gohcl.EncodeIntoBody(other.Interface(), of.Body())
+		}
+		_ = of.Bytes()
+		_ = hclwrite.Format([]byte("x   =   1\n"))
+		c.Count("route:another-value-encoded-before-decoding")
+		if string(src) != keep {
+			c.SetInput(keep)
+			c.Violation("native/encoded-source-changed-by-a-later-encoding", fmt.Sprintf("the bytes returned for the encoding of a %s value changed when another value was encoded and rendered afterwards\n was: %s\n now: %s", ty.Name(), trunc(keep, 300), trunc(string(src), 300)), nil)
+			return
+		}
+	}
 	c.SetInput(string(src))
 	c.Evals(1)
 	c.Count("type:" + ty.Name())
